@@ -1232,6 +1232,18 @@ def probe(ctx):
                 ctx.fail('is_ABk_symmetric_ext:naive-vs-irrep', f'naive SDP says {r1}, irrep-block SDP says {r2} (kext={kext}, dim={dim}) [{tag}]', rp)
             else:
                 ctx.probe_ok(('naive-vs-irrep', dim, kext, tag))
+    # histories on the SDP-backed path (shared set-up helper / caches): numerical range, boundary and other option tuples in between
+    opt = lambda k, b, p_: (k, b, p_)
+    hist_plan = [((2, 2), 2, False, False, [('numerical_range', opt(2, False, False)), ('boundary', opt(2, False, False)), ('numerical_range', opt(2, True, False))])]
+    if not ctx.quick():
+        hist_plan += [((2, 2), 2, True, False, [('numerical_range', opt(2, True, False)), ('is_ext', opt(2, False, False)), ('numerical_range', opt(2, True, False)), ('boundary', opt(2, True, False))]),
+                      ((2, 2), 3, False, False, [('boundary', opt(3, False, False)), ('numerical_range', opt(3, False, False)), ('numerical_range', opt(2, False, False))]),
+                      ((2, 2), 2, False, True, [('numerical_range', opt(2, False, True)), ('boundary', opt(2, False, True))]),
+                      ((2, 3), 2, False, False, [('numerical_range', opt(2, False, False)), ('boundary', opt(2, False, False))]),
+                      ((3, 2), 2, True, False, [('numerical_range', opt(2, True, False)), ('numerical_range', opt(2, False, False))])]
+    for dim, kext, boson, ppt, steps in hist_plan:
+        safely(ctx, 'symext-history:raises', dict(dim=list(dim), kext=kext, use_boson=boson, use_ppt=ppt, steps=[s_[0] for s_ in steps]),
+               lambda: check_symext_history(ctx, dim, kext, boson, ppt, rng, steps, f'history/{dim}/k{kext}/boson{boson}/ppt{ppt}'))
     # symmetric / bosonic extension SDPs (slow solvers: budgeted)
     sdp_budget = 30.0 if ctx.quick() else 600.0
     plan = [((2, 2), 2, False, False), ((2, 2), 2, True, False), ((2, 2), 2, False, True), ((2, 2), 3, False, False), ((2, 2), 3, True, False)]
@@ -1275,6 +1287,70 @@ def statements_not_proved(files):
         src = common.strip_lean_comments(open(os.path.join(common.LEAN, f)).read())
         out += re.findall(r'^def\s+(\S+\.Statement)\b', src, re.M)
     return out
+
+
+def _sdp_signature(fn):
+    """run `fn` with a recording cvxpy.Problem (the real problem is still built and solved): structure of every constraint list handed over"""
+    import cvxpy
+    sigs = []
+    real = cvxpy.Problem
+
+    def recorder(obj, cons=None, *a, **kw):
+        cons = list(cons or [])
+        sigs.append([(type(c).__name__, tuple(getattr(c, 'shape', ()) or ())) for c in cons])
+        return real(obj, cons, *a, **kw)
+    with patched(cvxpy, 'Problem', recorder):
+        out = fn()
+    return out, sigs
+
+
+def check_symext_history(ctx, dim, kext, boson, ppt, rng, steps, tag):
+    """history on the SDP-backed path: the verdict of is_ABk_symmetric_ext on a separable state, and the structure of the SDP it builds,
+    must be the same before and after other public functions that share its set-up helper were called in the same process (same and
+    different option tuples)"""
+    import numqi
+    E = numqi.entangle
+    dA, dB = dim
+    rho, dsc = make_separable(rng, dim, int(rng.integers(1, 2 * dA * dB + 1)), 'complex')
+    history = []
+    rp = dict(dsc, kext=kext, use_boson=boson, use_ppt=ppt, history=history)
+
+    def verdict():
+        return _sdp_signature(lambda: bool(E.is_ABk_symmetric_ext(rho, dim, kext, use_ppt=ppt, use_boson=boson)))
+    v0, sig0 = verdict()
+    if v0 is not True:
+        ctx.fail('is_ABk_symmetric_ext:separable-rejected', f'is_ABk_symmetric_ext(kext={kext}, use_boson={boson}, use_ppt={ppt}) returned {v0} for a separable state, dim={dim} [{tag}]', rp)
+        return False
+    ops = [numqi.random.rand_hermitian_matrix(dA * dB, seed=rng) for _ in range(2)]
+    ops = [x - np.trace(x) / (dA * dB) * np.eye(dA * dB) for x in ops]
+    ok = True
+    for step in steps:
+        name, (k2, b2, p2) = step
+        history.append(dict(call=name, kext=k2, use_boson=b2, use_ppt=p2))
+        if name == 'numerical_range':
+            r = guarded(lambda: E.get_ABk_extension_numerical_range(ops, np.array([1.0, 0.0]), dim, k2, use_ppt=p2, use_boson=b2, use_tqdm=False))
+        elif name == 'boundary':
+            r = guarded(lambda: E.get_ABk_symmetric_extension_boundary(rho, dim, k2, use_ppt=p2, use_boson=b2))
+        elif name == 'is_ext':
+            r = guarded(lambda: E.is_ABk_symmetric_ext(rho, dim, k2, use_ppt=p2, use_boson=b2))
+        else:
+            r = guarded(lambda: E.get_ABk_symmetric_extension_ree(rho, dim, k2, use_ppt=p2, use_boson=b2))
+        if isinstance(r, str):
+            ctx.fail(f'symext-history:{name}:raises', f'{name}(kext={k2}, use_boson={b2}, use_ppt={p2}) raised {r}, dim={dim} [{tag}]', dict(rp, history=list(history))); ok = False
+            continue
+        v1, sig1 = guarded(verdict) if False else verdict()
+        ctx.count('probe-symext-history')
+        if v1 is not True or v1 != v0:
+            ctx.fail('is_ABk_symmetric_ext:history', f'is_ABk_symmetric_ext(kext={kext}, use_boson={boson}, use_ppt={ppt}) accepted the separable state before and returns '
+                     f'{v1} after the history {[h["call"] for h in history]} in the same process, dim={dim} [{tag}]', dict(rp, history=list(history))); ok = False
+            break
+        if sig1 != sig0:
+            ctx.fail('is_ABk_symmetric_ext:history', f'the SDP built by is_ABk_symmetric_ext changed after the history {[h["call"] for h in history]}: constraints {sig0} -> {sig1} '
+                     f'(kext={kext}, use_boson={boson}, use_ppt={ppt}, dim={dim}) [{tag}]', dict(rp, history=list(history))); ok = False
+            break
+    if ok:
+        ctx.probe_ok(('symext-history', dim, kext, boson, ppt, tag))
+    return ok
 
 
 def check_sx_formulation(ctx, dA, dB, kext, rp):
@@ -1360,6 +1436,9 @@ def replay(ctx, payload):
         rho, dim = rebuild(rp)
         if payload.get('key', '').endswith(':index'):
             check_index_layer(ctx, rho, dim, 'replay', rp)
+        elif 'kext' in rp and 'history' in rp:
+            steps = [(h['call'], (h['kext'], h['use_boson'], h['use_ppt'])) for h in rp['history']]
+            check_symext_history(ctx, dim, rp['kext'], rp['use_boson'], rp['use_ppt'], np.random.default_rng(0), steps, 'replay')
         elif 'kext' in rp:
             import numqi
             r = guarded(lambda: bool(numqi.entangle.is_ABk_symmetric_ext(rho, dim, rp['kext'], use_ppt=rp['use_ppt'], use_boson=rp['use_boson'])))
